@@ -109,7 +109,8 @@ impl Interceptor for Tap {
 
     fn intercept_rx_datagram<'a>(&mut self, _subject: &Subject, datagram: &Datagram, payload: DecoderBufferMut<'a>) -> DecoderBufferMut<'a> {
         let (dcid, _) = crate::common::datagram_ids(payload.as_less_safe_slice(), peer(self.ep), self.ep, false);
-        emit(json!({"ev": "rxd", "ep": self.ep, "len": payload.len(), "dcid": dcid, "t": ts_us(datagram.timestamp)}));
+        let raddr = format!("{:?}", datagram.remote_address).replace(['"', '\\'], "");
+        emit(json!({"ev": "rxd", "ep": self.ep, "len": payload.len(), "dcid": dcid, "raddr": raddr, "t": ts_us(datagram.timestamp)}));
         payload
     }
 }
